@@ -34,6 +34,9 @@ type op struct {
 	extending bool
 	// deterministic: result is a function of the operands' observable state (all of them, today)
 	deterministic bool
+	// identity: an observing operation that is handed a *pointer* to the value; it returns the value the
+	// pointer refers to afterwards, which must be the value it referred to before
+	identity bool
 }
 
 func v3(x, y, z float64) vector3.Float64 { return vector3.New(x, y, z) }
@@ -94,6 +97,10 @@ var ops = []*op{
 	u("Scale", "Mesh.Scale", false, func(a M) M { return a.Scale(v3(2, 2, 0.5)) }),
 	u("Rotate", "Mesh.Rotate", false, func(a M) M { return a.Rotate(rot) }),
 	u("ApplyTRS", "Mesh.ApplyTRS", false, func(a M) M { return a.ApplyTRS(tr) }),
+	// mirroring transforms (an odd number of negative scale components reverses orientation)
+	u("ApplyTRS(mirror x)", "Mesh.ApplyTRS", true, func(a M) M { return a.ApplyTRS(trs.New(v3(0, 0, 0), rot, v3(-1, 1, 1))) }),
+	u("ApplyTRS(mirror xyz)", "Mesh.ApplyTRS", false, func(a M) M { return a.ApplyTRS(trs.Scale(v3(-1, -2, -0.5))) }),
+	u("Scale(mirror y)", "Mesh.Scale", false, func(a M) M { return a.Scale(v3(1, -1, 1)) }),
 	u("SetFloat3Attribute(Position)", "Mesh.SetFloat3Attribute", true, func(a M) M { return a.SetFloat3Attribute(P, freshV3(a.AttributeLength(), 7)) }),
 	u("SetFloat3Attribute(New3)", "Mesh.SetFloat3Attribute", true, func(a M) M { return a.SetFloat3Attribute("New3", freshV3(a.AttributeLength(), 9)) }),
 	u("SetFloat2Attribute(TexCoord)", "Mesh.SetFloat2Attribute", true, func(a M) M { return a.SetFloat2Attribute(T, freshV2(a.AttributeLength(), 3)) }),
@@ -204,6 +211,9 @@ var ops = []*op{
 		return repeat.Mesh(a, []trs.TRS{trs.Position(v3(1, 0, 0)), trs.Position(v3(0, 5, 0))})
 	}),
 	u("repeat.Mesh(1)", "repeat.Mesh", true, func(a M) M { return repeat.Mesh(a, []trs.TRS{trs.Position(v3(1, 0, 0))}) }),
+	u("repeat.Mesh(mirrored copy)", "repeat.Mesh", true, func(a M) M {
+		return repeat.Mesh(a, []trs.TRS{trs.Position(v3(1, 0, 0)), trs.Scale(v3(1, 1, -1))})
+	}),
 	// ---- primitives (constructors: values that may share package-level storage) ----
 	{name: "primitives.UnitCube", site: "primitives.Cube.Welded", arity: 0, deterministic: true, f: func(_, _ M) []M { return one(primitives.UnitCube()) }},
 	{name: "primitives.Cube.UnweldedQuads", site: "primitives.Cube.UnweldedQuads", arity: 0, deterministic: true, f: func(_, _ M) []M {
@@ -220,6 +230,15 @@ var ops = []*op{
 	obs("gltf.WriteBinary", "gltf.WriteBinary", func(a M) {
 		must(gltf.WriteBinary(gltf.PolyformScene{Models: []gltf.PolyformModel{{Name: "m", Mesh: &a}}}, io.Discard))
 	}),
+	// the glTF scene refers to its meshes by pointer: what the pointer refers to after the export
+	{name: "gltf.WriteBinary(&m); m", site: "gltf.WriteBinary", arity: 1, deterministic: true, identity: true, observer: true, f: func(a, _ M) []M {
+		must(gltf.WriteBinary(gltf.PolyformScene{Models: []gltf.PolyformModel{{Name: "m", Mesh: &a}}}, io.Discard))
+		return one(a)
+	}},
+	{name: "gltf.WriteText(&m, &m); m", site: "gltf.WriteText", arity: 1, deterministic: true, identity: true, observer: true, f: func(a, _ M) []M {
+		must(gltf.WriteText(gltf.PolyformScene{Models: []gltf.PolyformModel{{Name: "m", Mesh: &a}, {Name: "again", Mesh: &a}}}, io.Discard))
+		return one(a)
+	}},
 }
 
 func must(err error) {
